@@ -13,5 +13,6 @@ import (
 	_ "verif/h/life"
 	_ "verif/h/order"
 	_ "verif/h/pubsub"
+	_ "verif/h/selftest"
 	_ "verif/h/subhist"
 )
